@@ -21,6 +21,7 @@ import Driver.Journal
 import Driver.JsonRpc
 import Driver.NodeCache
 import Driver.NodeSync
+import Driver.NodeReorg
 import Driver.ConsensusStore
 import Driver.Downloader
 import Driver.Frame
@@ -56,6 +57,7 @@ def registry : List Obj := [
   pureObj pureProto,
   mkObj ([] : SyncSt) syncStep,
   mkObj ({} : NsSt) nsStep,
+  mkObj ({} : NrSt) nrStep,
   contractObj,
   rewardsNodeObj,
   pureObj pureRewardsEpoch,
